@@ -129,7 +129,15 @@ def judge (input impl : String) : String × String × String :=
         match disclose ⟨T, S, false⟩ fuel E ⟨[], []⟩ with
         | .ok (_, a) => !(S.all a.found.contains)
         | .error _ => true
-      if tamper != .none || (hb ≥ 2 && hb != 8) then
+      -- the holder's own check of the issuer's output: one claim per disclosure; altered signature and uncommitted
+      -- disclosure refused
+      let hpBad := match res.get? "hp" with
+        | some (.str hp) => hp != s!"{T.length}/err/err"
+        | _ => false
+      if hpBad then
+        (modelCol, "HOLDER-PARSE: expected " ++ s!"{T.length}/err/err" ++ ", got " ++
+          (match res.get? "hp" with | some (.str hp) => hp | _ => "?"), "")
+      else if tamper != .none || (hb ≥ 2 && hb != 8) then
         (modelCol, if implOut.isNone then "=" else "TAMPERED-PRESENTATION-ACCEPTED", "")
       else if orphan then
         (modelCol, if implOut.isNone then "=" else "UNVERIFIABLE-DISCLOSURE-ACCEPTED", "")
